@@ -188,6 +188,12 @@ func newWorld(rng *rand.Rand, nVals, profile int, rotate bool) *world {
 		blocks:    map[string]*blockInfo{},
 		sigCache:  map[string][]byte{},
 	}
+	// Two of three chains start at height 1 like every chain in the repository's tests;
+	// the others start higher, which leaves a gap of heights below the initial height
+	// that no view covers before the first commit.
+	if rng.IntN(3) == 0 {
+		w.initH = 2 + uint64(rng.IntN(20))
+	}
 	g := tmconsensus.Genesis{ChainID: "verif", InitialHeight: w.initH, CurrentAppStateHash: []byte{0}, ValidatorSet: w.set(w.initH).vs}
 	gh, err := g.Header(hashScheme)
 	if err != nil {
